@@ -189,14 +189,19 @@ Proof.
 Qed.
 
 (* set the <property> of <sound / sprite / cast> o to v *)
-Lemma tbl_assign_obj f : assocZ (u8 (b 93) * 256 + u8 (b (fcode f))) BI_OPCODES
-  = Some (2, "BiOpcode", match f with FSound => "AssignSoundPropertiesOpcode" | FSprite => "AssignSpritePropertiesOpcode"
-                                    | FCast => "AssignCastPropertiesOpcode" | FVideo => "AssignVideoPropertiesOpcode" end, "").
-Proof. destruct f; vm_compute; reflexivity. Qed.
+Definition assign_proc (f : ofam) : string :=
+  match f with FSound => "AssignSoundPropertiesOpcode" | FSprite => "AssignSpritePropertiesOpcode"
+             | FVideo => "AssignVideoPropertiesOpcode" | _ => "AssignCastPropertiesOpcode" end.
+Definition assign_opk (f : ofam) : opclass :=
+  match f with FSound => OAssignSoundProps | FSprite => OAssignSpriteProps | FVideo => OAssignVideoProps | _ => OAssignCastProps end.
+Lemma tbl_assign_obj f : assignable f = true -> assocZ (u8 (b 93) * 256 + u8 (b (fcode f))) BI_OPCODES = Some (2, "BiOpcode", assign_proc f, "").
+Proof. destruct f; try discriminate; intros _; vm_compute; reflexivity. Qed.
+Lemma ftable_small f : (length (ftable f) < 512)%nat.
+Proof. destruct f; vm_compute; lia. Qed.
 
 Lemma exec_set_obj en props f pid o v : wf_s en (SSetObj f pid o v) -> exec_s_spec en props (SSetObj f pid o v).
 Proof.
-  intros (Hpid & Ho & Hv) d off len a fuel r m [Hag Hpr] Hst Hc Hoff Hlen.
+  intros (Hasg & Hpid & Ho & Hv) d off len a fuel r m [Hag Hpr] Hst Hc Hoff Hlen.
   pose proof (ftable_small f) as Hsm.
   cbn [compile_s ninstr_s] in *. rewrite !zlen_app in *. change (zlen [b 93; b (fcode f)]) with 2 in *.
   apply code_at_app in Hc. destruct Hc as [Hco Hc]. apply code_at_app in Hc. destruct Hc as [Hcv Hc].
@@ -214,9 +219,8 @@ Proof.
   cbn [ninstr compile_e] in E3. rewrite E3.
   set (m3 := after_e en pi (EInt (Z.of_nat pid)) m2). set (ps := pi + zlen (compile_int (Z.of_nat pid))) in *.
   assert (Hs : step d ps r3 m3 = Ok (ps + 2, r3, after_s en props a (SSetObj f pid o v) m)).
-  { eapply step_bi with (proc0 := "AssignSoundPropertiesOpcode") (attr0 := "")
-                        (oc := match f with FSound => OAssignSoundProps | FSprite => OAssignSpriteProps | FCast => OAssignCastProps | FVideo => OAssignVideoProps end);
-      [exact Hcs | reflexivity | apply tbl_assign_obj | destruct f; reflexivity |].
+  { eapply step_bi with (proc0 := "AssignSoundPropertiesOpcode") (attr0 := "") (oc := assign_opk f);
+      [exact Hcs | reflexivity | apply tbl_assign_obj; exact Hasg | destruct f; try discriminate Hasg; reflexivity |].
     assert (E : assign_obj_prop m3 ps (fclass f) (ftable f) = Ok (after_s en props a (SSetObj f pid o v) m)).
     { unfold assign_obj_prop, pop. subst m3. rewrite after_e_stack. cbn [bind reify_e]. unfold int_name. cbn [name_of].
       rewrite int_of_str_small by lia. cbn [of_option bind]. unfold with_stack at 1. cbn [m_stack].
@@ -233,7 +237,7 @@ Proof.
       - destruct m as [? [? ? ? ? ? ? ?] ?]; reflexivity.
       - subst ps pi pv. destruct m as [? [? ? ? ? ? ? ?] ?]; reflexivity.
       - destruct m as [? [? ? ? ? ? ? ?] ?]; reflexivity. }
-    destruct f; cbn [process fclass ftable] in *; exact E. }
+    destruct f; try discriminate Hasg; cbn [assign_opk process fclass ftable] in *; exact E. }
   exists r3. cbn [Nat.add]. erewrite run_ops_step; [| subst ps pi pv; lia | exact Hs]. f_equal. subst ps pi pv. lia.
 Qed.
 
